@@ -81,6 +81,23 @@ pub fn build_catalog(zs: &[ZoneCfg]) -> Option<(Cat, usize)> {
             _ => { cat.insert(Entry::FailedToLoad(apex, class, ())); }
         }
     }
+    // The served catalog is reached through a *history*, not only through inserts: temporary entries
+    // below and above each configured zone are inserted and removed again. By C22 the catalog is the
+    // same finite map afterwards; a catalog implementation that prunes or loses entries on removal
+    // now shows up in the responses (C07: which entry answers).
+    for z in zs.iter().take(4) {
+        let class = Class::from(z.class);
+        let mut tmp: Vec<Vec<u8>> = Vec::new();
+        let mut one = vec![3u8, b't', b'm', b'p']; one.extend_from_slice(&z.apex); tmp.push(one);
+        let mut two = vec![1u8, b'x', 1, b'y']; two.extend_from_slice(&z.apex); tmp.push(two);
+        if z.apex.len() > 1 { let l = z.apex[0] as usize; tmp.push(z.apex[1 + l..].to_vec()); } // the parent
+        for t in tmp {
+            if t.len() > 255 || zs.iter().any(|o| o.class == z.class && o.apex.eq_ignore_ascii_case(&t)) { continue; }
+            let Some(n) = name(&t) else { continue };
+            cat.insert(Entry::NotYetLoaded(n.clone(), class, ()));
+            cat.remove(&n, class);
+        }
+    }
     Some((cat, skipped))
 }
 
